@@ -462,6 +462,27 @@ impl Property for C01 {
                 }
             }
         }
+        // ---- a memory limit equal to the needed window (min(dictionary, output)) changes nothing,
+        //      however large the declared dictionary is
+        if matches!(c.container, Container::Header13 | Container::Header5) && expected.len() <= 200_000 {
+            let need = (expected.len() as u64).min(eff);
+            let mut o = match c.container {
+                Container::Header13 => Opts::default(),
+                _ => Opts::with(USize::UseProvided(size)),
+            };
+            o.memlimit = Some(need);
+            let mut f = if c.container == Container::Header13 { lzma_header(c.props, c.dict, size) } else { lzma_header5(c.props, c.dict) };
+            f.extend_from_slice(&enc.payload);
+            st.eval();
+            st.class("also: memlimit == needed window");
+            let r4 = sut::lzma_decompress_simple(&f, &o);
+            if !r4.verdict.is_ok() || r4.out != expected {
+                return Judgement::violation(
+                    "memlimit-at-need",
+                    describe(&format!("same stream with memlimit = min(dictionary, output) = {}", need), &r4),
+                );
+            }
+        }
         // ---- metamorphic (a): header dict < 4096 behaves as 4096
         let is_raw = matches!(c.container, Container::Raw | Container::RawReset { .. });
         if !is_raw && c.dict < 4096 && sh.max_dist > c.dict as u64 {
